@@ -31,9 +31,9 @@ import (
 	"math/big"
 	"testing"
 
-	"github.com/MinterTeam/minter-go-node/formula"
 	tx "github.com/MinterTeam/minter-go-node/coreV2/transaction"
 	"github.com/MinterTeam/minter-go-node/coreV2/types"
+	"github.com/MinterTeam/minter-go-node/formula"
 	abci "github.com/tendermint/tendermint/abci/types"
 	"pgregory.net/rapid"
 	"verif/harness/sim"
